@@ -678,6 +678,8 @@ def _is_unsq0(t, rank):
         return True
     # a linear combination whose every monomial is an unsq(…, -rank) atom
     for mono in t.terms:
+        if not mono:
+            continue  # constants broadcast
         if len(mono) != 1 or mono[0][1] != 1:
             return False
         a = mono[0][0]
@@ -691,7 +693,7 @@ def _strip_unsq0(t):
         return t
     out = T.ZERO
     for mono, c in t.terms.items():
-        out = out + c * mono[0][0].args[0]
+        out = out + (c * mono[0][0].args[0] if mono else T.const(c))
     return out
 
 
